@@ -546,6 +546,10 @@ class Flattener:
             if collected is not None:
                 out += collected
                 continue
+            looped = self._comprehension_to_loop(fn, st, caller_names)
+            if looped is not None:
+                out += self._flatten_body(fn, looped, caller_names)
+                continue
             fused = self._fuse_generator(fn, st, caller_names, out)
             if fused is not None:
                 out += fused
@@ -574,6 +578,49 @@ class Flattener:
             if st is not None:
                 out.append(st)
         return out
+
+    def _comprehension_to_loop(self, fn, st, caller_names):
+        """`x = [E for T in IT if C]` whose element or filter calls a new helper  ->  `x = []` / `for T in IT: if C:
+        x.append(E)`, so that the helper is inlined where it is evaluated (once per element).  None when not applicable."""
+        ret = None
+        if isinstance(st, ast.Return) and isinstance(st.value, ast.ListComp) and len(st.value.generators) == 1:
+            # `return [comprehension]`: through a fresh local
+            n_ = 0
+            while "comp_list__c%d" % n_ in caller_names:
+                n_ += 1
+            tmp = "comp_list__c%d" % n_
+            caller_names.add(tmp)
+            ret = ast.copy_location(ast.Return(value=ast.copy_location(ast.Name(id=tmp, ctx=ast.Load()), st)), st)
+            st = ast.copy_location(ast.Assign(targets=[ast.copy_location(ast.Name(id=tmp, ctx=ast.Store()), st)], value=st.value), st)
+        if not (isinstance(st, ast.Assign) and len(st.targets) == 1 and isinstance(st.targets[0], ast.Name) and isinstance(st.value, ast.ListComp) and len(st.value.generators) == 1):
+            return None
+        comp = st.value
+        g = comp.generators[0]
+        if g.is_async:
+            return None
+        calls = [c for x in [comp.elt] + g.ifs for c in ast.walk(x) if isinstance(c, ast.Call)]
+        if not any(self._resolve(fn, c)[0] is not None for c in calls):
+            return None
+        name = st.targets[0].id
+        tnames = {y.id for y in ast.walk(g.target) if isinstance(y, ast.Name)}
+        if any(isinstance(y, ast.Name) and y.id == name for y in ast.walk(comp)) or (tnames & caller_names - {y.id for y in ast.walk(comp) if isinstance(y, ast.Name)}):
+            return None
+        for tn in tnames:
+            inside = sum(1 for y in ast.walk(comp) if isinstance(y, ast.Name) and y.id == tn)
+            total = sum(1 for y in ast.walk(fn.node) if isinstance(y, ast.Name) and y.id == tn) + (1 if tn in fn.params else 0)
+            if total > inside:
+                return None  # the comprehension variable would leak into a name the function uses elsewhere
+        app = ast.copy_location(ast.Expr(value=ast.copy_location(ast.Call(func=ast.copy_location(ast.Attribute(value=ast.copy_location(ast.Name(id=name, ctx=ast.Load()), st), attr="append", ctx=ast.Load()), st),
+                                                                               args=[comp.elt], keywords=[]), st)), st)
+        body = [app]
+        for c in reversed(g.ifs):
+            body = [ast.copy_location(ast.If(test=c, body=body, orelse=[]), st)]
+        init = ast.copy_location(ast.Assign(targets=[ast.copy_location(ast.Name(id=name, ctx=ast.Store()), st)], value=ast.copy_location(ast.List(elts=[], ctx=ast.Load()), st)), st)
+        loop = ast.copy_location(ast.For(target=g.target, iter=g.iter, body=body, orelse=[], type_comment=None), st)
+        for y in ast.walk(loop.target):
+            if isinstance(y, ast.Name):
+                y.ctx = ast.Store()
+        return [init, loop] + ([ret] if ret is not None else [])
 
     def _collect_generator(self, fn, st, caller_names):
         """`x = list(gen(args))` with gen a new generator helper  ->  `x = []` + the helper's body with every
